@@ -66,6 +66,8 @@ type c12Add struct {
 	Expected  any
 	Arrival   int // adapter arrival number when stored, 0 = not stored
 	Task      int // submitting task
+	NoID      bool // submitted without an id on a worker that has an id generator
+	GenMissing bool // ... and the generator was not called by the submitting task during the Add
 }
 
 func (w *c12World) add(clause string, seq uint64, format string, a ...any) {
@@ -250,12 +252,35 @@ func c12Run[T any](seed uint64, tier string, gen func(r *simrt.Rand) T) (*Episod
 		// (not together with injected entries: a corrupted one may decode with an empty id too)
 		subs[0][0].id = ""
 	}
+	// persistent kinds: the queue belongs to the worker, whose id generator names every
+	// submission that does not bring an id; some submissions bring none
+	prodGen := kind < qkDist && r.Chance(35)
+	if prodGen {
+		for i := range subs {
+			for k := range subs[i] {
+				if r.Chance(35) {
+					subs[i][k].id = ""
+				}
+			}
+		}
+	}
+	// a backend that refuses some enqueues: the submission is rejected, nothing else changes
+	fenq := 0
+	if r.Chance(25) {
+		fenq = pick(r, []int{20, 40})
+	}
+	type genRec struct {
+		task int
+		id   string
+		seq  uint64
+	}
+	var genLog []genRec
 	startPaused := r.Chance(40)
 	opts := simOptions(cfg, seed, numSites, nil, false)
 	sim := simrt.New(opts)
 	ep.Res = sim.Run(func() {
 		wd.rootTaskID = simrt.CurID()
-		ad := &simAdapter{root: wd, prio: cw.prio, cfg: QCfg{Kind: kind, NDelay: pick(r, []int{0, 1, 2})}, faultsOn: false}
+		ad := &simAdapter{root: wd, prio: cw.prio, cfg: QCfg{Kind: kind, NDelay: pick(r, []int{0, 1, 2}), FEnq: fenq}, faultsOn: fenq > 0}
 		cw.ad = ad
 		fn := func(j Job[T]) {
 			cw.seen = append(cw.seen, c12Seen{Seq: wd.rec.stamp(), ID: j.ID(), Data: j.Data()})
@@ -264,16 +289,33 @@ func c12Run[T any](seed uint64, tier string, gen func(r *simrt.Rand) T) (*Episod
 		if consumerGen && kind >= qkDist {
 			wopts = append(wopts, WithJobIdGenerator(func() string { return "consumer-generated" }))
 		}
+		if prodGen {
+			wopts = append(wopts, WithJobIdGenerator(func() string {
+				id := "pg-" + itoa(len(genLog)+1)
+				genLog = append(genLog, genRec{simrt.CurID(), id, wd.rec.stamp()})
+				return id
+			}))
+		}
 		w := NewWorker(fn, wopts...)
 		wd.w = w
 		var add func(v T, prio int, id string) bool
 		switch kind {
 		case qkPers:
 			q := w.WithPersistentQueue(adQ{ad})
-			add = func(v T, prio int, id string) bool { return q.Add(v, WithJobId(id)) }
+			add = func(v T, prio int, id string) bool {
+				if id == "" && prodGen {
+					return q.Add(v) // no option at all
+				}
+				return q.Add(v, WithJobId(id))
+			}
 		case qkPersPrio:
 			q := w.WithPersistentPriorityQueue(adPQ{ad})
-			add = func(v T, prio int, id string) bool { return q.Add(v, prio, WithJobId(id)) }
+			add = func(v T, prio int, id string) bool {
+				if id == "" && prodGen {
+					return q.Add(v, prio)
+				}
+				return q.Add(v, prio, WithJobId(id))
+			}
 		case qkDist:
 			q := w.WithDistributedQueue(adQ{ad})
 			b := NewDistributedQueue[T](adQ{ad})
@@ -307,6 +349,14 @@ func c12Run[T any](seed uint64, tier string, gen func(r *simrt.Rand) T) (*Episod
 					before := ad.arrival
 					a.OK = add(x.v, x.prio, x.id)
 					a.Ret = wd.rec.stamp()
+					if prodGen && x.id == "" {
+						a.NoID, a.GenMissing = true, true
+						for _, g := range genLog {
+							if g.task == a.Task && g.seq > a.Inv && g.seq < a.Ret {
+								a.ID, a.GenMissing = g.id, false
+							}
+						}
+					}
 					_ = before
 					cw.adds = append(cw.adds, a)
 				}
@@ -381,11 +431,27 @@ func c12Judge[T any](ep *Episode, cw *c12World) {
 			a.ID = rt.(string)
 		}
 		byID[a.ID] = a
-		stored := false
+		stored, refused := false, false
 		for _, c := range ad.calls {
-			if c.Op == "enq" && c.OK && c.Seq > a.Inv && c.Seq < a.Ret && c.Task == a.Task {
-				stored = true
+			if c.Op == "enq" && c.Seq > a.Inv && c.Seq < a.Ret && c.Task == a.Task {
+				if c.OK {
+					stored = true
+				} else {
+					refused = true
+				}
 			}
+		}
+		if a.GenMissing {
+			cw.add("C12.a", a.Ret, "the worker has an id generator and this submission brought no id, but the generator was not called during the Add: the job is stored without the id the worker assigns (Add returned %v)", a.OK)
+			continue
+		}
+		if refused && a.Encodable {
+			if a.OK {
+				cw.add("C12.b", a.Ret, "Add (id %q) returned true although the backend refused the entry", a.ID)
+			}
+			a.Encodable = false // from here on: a rejected submission, it must not arrive
+			a.OK = false
+			continue
 		}
 		if !a.Encodable {
 			if a.OK {
@@ -427,7 +493,7 @@ func c12Judge[T any](ep *Episode, cw *c12World) {
 			continue
 		}
 		if !a.Encodable {
-			cw.add("C12.b", s.Seq, "the consumer ran job %q whose payload cannot be encoded", s.ID)
+			cw.add("C12.b", s.Seq, "the consumer ran job %q although its submission was rejected (payload that cannot be encoded, or entry refused by the backend)", s.ID)
 			continue
 		}
 		if !reflect.DeepEqual(s.Data, a.Expected) {
